@@ -76,7 +76,7 @@ package keeper
 //@   ensures ok.pre:       err == nil ==> pre && (onRelay ==> auth && dstKnown)
 //@   ensures unauth.pre:   err == sdkerrors.ErrUnauthorized ==> pre && onRelay && !auth
 //@   ensures complete:     pre ==> (!onRelay ==> err == nil) && (onRelay && auth && dstKnown ==> err == nil) && (onRelay && !auth ==> err == sdkerrors.ErrUnauthorized)
-//@   ensures deny.unknown: pre && onRelay && auth && !dstKnown ==> err == sdkerrors.ErrUnauthorized
+//@   ensures [C11] deny.unknown: pre && onRelay && auth && !dstKnown ==> err == sdkerrors.ErrUnauthorized
 //@   ensures state.ok:     err == nil ==> tibc == ite(onRelay, rcpt[commit(p.SourceChain, p.DestinationChain, p.Sequence) := sha256(str(p.Data))], rcpt)
 //@   ensures state.unauth: err == sdkerrors.ErrUnauthorized ==> tibc == rcpt
 //@   ensures early.atomic: err != nil && !pre ==> tibc == old(tibc) && events == old(events)
